@@ -131,6 +131,14 @@ Corrupt(h, class) ==
   /\ UNCHANGED <<queued, tree, known, store, cache, pending>>
   /\ Record(Step("Corrupt", [chain |-> h, class |-> class], [status |-> 0]))
 
+\* the front end is restarted, or another replica with its own (cold) cache takes over: store and backend are
+\* shared and survive; the cache and the detached writes still on their way die with the process
+Restart ==
+  /\ faults < MaxFaults
+  /\ cache' = <<>> /\ pending' = <<>> /\ faults' = faults + 1
+  /\ UNCHANGED <<queued, tree, known, store, bad>>
+  /\ Record(Step("Restart", [k |-> 0], [status |-> 0]))
+
 CorruptClasses == {"trailing", "notDER", "truncated", "contentFlip", "empty"}
 
 Next ==
@@ -141,8 +149,12 @@ Next ==
   \/ CacheSetFires
   \/ \E h \in Chains : DropRow(h)
   \/ \E h \in Chains, k \in CorruptClasses : Corrupt(h, k)
+  \/ Restart
 
 Spec == Init /\ [][Next]_vars
+
+\* what a front end with a cold cache (after Restart, or another replica) can serve from the current state
+ServableCold(i) == tree[i].layout = "full" \/ (ChainOf[tree[i].cert] \in store /\ bad[ChainOf[tree[i].cert]] = "ok")
 
 (* ---------------- properties ---------------- *)
 \* a reply of 200 always carries the chain of the certificate stored at that index (what D serves):
@@ -156,6 +168,20 @@ FaultIsError == [][(last'.op = "Read" /\ last'.reply.find /\ last'.reply.status 
 \* legacy entries never need the store
 LegacyUnchanged == [][(last'.op = "Read" /\ tree[last'.args.index + 1].layout = "full") =>
                          last'.reply.status = 200 /\ ~last'.reply.find]_vars
+
+\* durability, whatever the cache state: a submission is acknowledged (and its leaf queued) only once the store has
+\* the chain, and rows leave the store only through storage damage.  Together: every acknowledged hash-layout
+\* entry can be resolved from the store alone, which is what makes a cold cache (Restart, another replica,
+\* eviction) harmless.
+AckAfterStore == [][(last'.op = "Submit" /\ last'.reply.status = 200 /\ last'.reply.add) => ChainOf[last'.args.cert] \in store']_vars
+\* ... and a cache hit stands for "stored": cache and detached writes only ever carry chains the store holds; every
+\* action except storage damage preserves that (stated as the inductive step so that it needs no history)
+CacheWithinStore(ca, pe, st) == (\A i \in 1..Len(ca) : ca[i] \in st) /\ (\A i \in 1..Len(pe) : pe[i] \in st)
+CacheFromStore == [][(CacheWithinStore(cache, pending, store) /\ last'.op # "DropRow") => CacheWithinStore(cache', pending', store')]_vars
+StoreMonotone == [][last'.op # "DropRow" => store \subseteq store']_vars
+\* nothing but storage damage makes an integrated entry unservable for a cold front end
+ServableStays == [][\A i \in 1..Len(tree) : (ServableCold(i) /\ last'.op \notin {"DropRow", "Corrupt"}) => ServableCold(i)']_vars
+RestartIsCold == [][last'.op = "Restart" => cache' = <<>> /\ pending' = <<>>]_vars
 
 \* the cache only ever holds chains that were stored (it cannot invent data)
 CacheSound == \A i \in 1..Len(cache) : cache[i] \in Chains
